@@ -578,6 +578,19 @@ def line_mode(ctx, fi, data, r5='C04.D5', r6='C04.D6'):
                               ev[1][1] == fi.qualname and
                               kind(ev[1][2]) == 'bound' and
                               ev[1][2][1] == SELF and len(ev[1][3]) == 1]
+                    # the remainder reaches the framing code ONCE: either
+                    # it stays in the buffer and the re-entry brings nothing
+                    # (b''), or the buffer is emptied and the re-entry
+                    # brings it
+                    kept = st.heap.get((SELF, '_buffer'))
+                    ctx.ob(r5, q, 'remainder-fed-once',
+                           kept == C(b'') or all(a == C(b'') for a in refeed),
+                           'the bytes behind the last handshake line stay in '
+                           'the buffer AND are handed to the re-entrant '
+                           'dataReceived (%s): every message that arrives in '
+                           'the same read as the end of the handshake is '
+                           'framed twice' % (term_str(refeed[0])[:50]
+                                             if refeed else ''))
                     if bufv == C(b'') and len(refeed) == 1:
                         bufv = refeed[0]
                     ok = False
